@@ -19,7 +19,6 @@ package main
 import (
 	"fmt"
 	"os"
-	"runtime/pprof"
 	"sort"
 	"sync/atomic"
 	"time"
@@ -35,12 +34,6 @@ func run(c *vf.Ctx) {
 		"partial-length headers {2^0,2^1,2^9,2^30} and old-format length types 0..3; each input goes to 11 entry-point variants; non-trivial = distinct (seed, mutation) pairs, resp. distinct short strings that are accepted or reach a packet parser; " +
 		"oracle: no panic, result or error, bodies reach EOF/error within 10^6 Read calls")
 	c.Assume("the prompt function gives up (returns an error) after 3 calls: ReadMessage is documented to call it forever otherwise; keyrings passed to ReadMessage/CheckDetachedSignature are trusted (fixture) keys; a CPU loop that performs no Read call would hang the run instead of being reported")
-	if pf := os.Getenv("VERIF_C45_PPROF"); pf != "" {
-		if f, err := os.Create(pf); err == nil {
-			pprof.StartCPUProfile(f)
-			defer pprof.StopCPUProfile()
-		}
-	}
 	go watchdog(c)
 	e := newEnv(c)
 	if e == nil {
